@@ -25,6 +25,7 @@ RAdjCanon(n, t) == IF PrintT(<<"DEF", ToJson([n |-> n, v |-> t.v])>>)
                    THEN [d |-> t.d, v |-> [k \in 1..Len(t.v) |-> [t |-> "a", n |-> n, i |-> k]] \o <<>>]
                    ELSE t
 RTainted(t) == FALSE
+RApproxEq(kind, a, b, eps, rel) == "unspec"
 XRec == ndJsonDeserialize(IOEnv.TRACE)
 
 VARIABLES l, S, dig, skip, lastcmp, stats
@@ -32,5 +33,5 @@ VARIABLES l, S, dig, skip, lastcmp, stats
 INSTANCE TraceSpec WITH SAdd <- KAdd, SMul <- KMul, SNeg <- KNeg, SDiv <- KDiv, SFn <- KFn,
                         SPow <- KPow, SDPow <- KDPow, SZero <- KZero, SOne <- KOne, AdjCanon <- RAdjCanon,
                         TIn <- RTIn, TMatch <- RTMatch, SIn <- RSIn, SMatch <- RSMatch, SGt <- RSGt,
-                        PIn <- RPIn, Canon <- RCanon, Tainted <- RTainted, Exact <- FALSE, Rec <- XRec
+                        PIn <- RPIn, Canon <- RCanon, ApproxEq <- RApproxEq, Tainted <- RTainted, Exact <- FALSE, Rec <- XRec
 =============================================================================
